@@ -22,7 +22,8 @@ CFG = dict(
          "pattern of length 0..6 (distinct error numbers, a pull counter on the source); write_trust_iter "
          "and WriteTrustIter::write on buffer length 0..5 x announced length 0..6 x actual length 0..6 "
          "into a recording buffer (every uset call logged) and into the Vec / VecDeque / Array1 "
-         "MaybeUninit buffers pre-filled with a sentinel; Vec1Mut::get_mut (len 0..5 x index 0..len+1) and apply_mut_with "
+         "MaybeUninit buffers pre-filled with a sentinel; UninitVec::set (the checked single-slot write) on buffer length 0..5 x index 0..len+2 "
+         "into a recording buffer and into Vec<MaybeUninit> with a sentinel guard slot of spare capacity behind the end; Vec1Mut::get_mut (len 0..5 x index 0..len+1) and apply_mut_with "
          "(len 0..5 x other 0..5, recording callback) on Vec / wrapped VecDeque / Array1 / ArrayViewMut1; "
          "Vec1::sort_unstable_by on EVERY sequence over a 3-letter alphabet up to length 5, both orders, on Vec, "
          "Array1, contiguous and wrapped VecDeque (copy-out / write-back path); sources with a MISREPORTED size hint (upper bound below / above "
